@@ -418,6 +418,7 @@ type hostFinding struct {
 	Cfg     hostCfg     `json:"config"`
 	Config  string      `json:"config_dsl"`
 	HostIdx int         `json:"host_index"`
+	History int         `json:"hosts_served_before"` // 0: reproduces as the only request after boot
 	Host    reqHost     `json:"host"`
 	ReqRaw  string      `json:"request_raw"`
 	Expect  expectation `json:"expected"`
@@ -431,12 +432,21 @@ func (f hostFinding) message(all []hostPat) string {
 		f.Got.Status, f.Got.Allow, f.Got.Stored, f.Got.Route, f.Got.Residue)
 }
 
-func hostRunOne(c hostCfg, all []hostPat, h reqHost, ip hostInterp, slot int) (bool, expectation, observation, error) {
+// hostRunOne boots the configuration and serves the request with Host h; with history >= 0 the hosts
+// [0, history) of the alphabet are served first, as the enumeration did on that boot.
+func hostRunOne(c hostCfg, all []hostPat, h reqHost, history int, ip hostInterp, slot int) (bool, expectation, observation, error) {
 	b, err := boot(hostDSL(c, all, bootSeq.Add(1)), slot)
 	if err != nil {
 		return false, expectation{}, observation{}, err
 	}
 	defer b.a.Shutdown()
+	if history > 0 {
+		for _, ph := range hostAlphabet()[:history] {
+			if _, err := b.serveRaw(hostRaw(c, ph), "10.1.2.3:1"); err != nil {
+				return false, expectation{}, observation{}, err
+			}
+		}
+	}
 	o, err := b.serveRaw(hostRaw(c, h), "10.1.2.3:1")
 	if err != nil {
 		return false, expectation{}, o, err
@@ -699,8 +709,13 @@ func runHostFamily(r *runner.Run, deadline time.Time) bool {
 	sort.Strings(keys)
 	for _, k := range keys {
 		f := finds[k]
+		// the request alone on a fresh boot, else after the requests served before it on that boot
+		if bad, _, _, err := hostRunOne(f.Cfg, all, f.Host, 0, ip, 908); err != nil || !bad {
+			f.History = f.HostIdx
+			k = strings.Replace(k, "hostfam:", "hostfam-after-history:", 1)
+		}
 		r.Violation(k, f.message(all), f, func() bool {
-			bad, _, _, err := hostRunOne(f.Cfg, all, f.Host, ip, 908)
+			bad, _, _, err := hostRunOne(f.Cfg, all, f.Host, f.History, ip, 908)
 			return err == nil && bad
 		})
 	}
@@ -712,8 +727,9 @@ func replayHosts(r *runner.Run, data []byte) (ok bool) {
 	var doc struct {
 		Key    string `json:"key"`
 		Replay struct {
-			Cfg  hostCfg `json:"config"`
-			Host reqHost `json:"host"`
+			Cfg     hostCfg `json:"config"`
+			Host    reqHost `json:"host"`
+			History int     `json:"hosts_served_before"`
 		} `json:"replay"`
 	}
 	if json.Unmarshal(data, &doc) != nil || doc.Replay.Cfg.Family != "hostfam" || len(doc.Replay.Cfg.List) == 0 {
@@ -731,7 +747,11 @@ func replayHosts(r *runner.Run, data []byte) (ok bool) {
 			return true
 		}
 	}
-	bad, e, o, err := hostRunOne(c, all, h, ip, 909)
+	if doc.Replay.History < 0 || doc.Replay.History > len(hostAlphabet()) {
+		r.Infra("replay: history out of range")
+		return true
+	}
+	bad, e, o, err := hostRunOne(c, all, h, doc.Replay.History, ip, 909)
 	if err != nil {
 		r.Infra("replay: %v", err)
 		return true
@@ -743,7 +763,7 @@ func replayHosts(r *runner.Run, data []byte) (ok bool) {
 	r.NotExhaustive("replay of one case")
 	r.Set("rule", "replay of one recorded case")
 	if bad {
-		f := hostFinding{Cfg: c, Config: hostDSL(c, all, 0), Host: h, ReqRaw: hostRaw(c, h), Expect: e, Got: o, Interp: ip}
+		f := hostFinding{Cfg: c, Config: hostDSL(c, all, 0), History: doc.Replay.History, Host: h, ReqRaw: hostRaw(c, h), Expect: e, Got: o, Interp: ip}
 		key := doc.Key
 		if key == "" {
 			key = "hostfam:replay"
